@@ -8,10 +8,9 @@
 package main
 
 import (
-	"strconv"
-	"sort"
 	"bufio"
 	"bytes"
+	"context"
 	"crypto/hmac"
 	"crypto/sha1"
 	"crypto/sha256"
@@ -25,7 +24,10 @@ import (
 	"os"
 	"os/exec"
 	"path/filepath"
+	"sort"
+	"strconv"
 	"strings"
+	"time"
 )
 
 type jsArg struct {
@@ -439,11 +441,16 @@ func runNode(node, script, opsFile, index string, n int) ([]string, error) {
 	ans := make([]string, n)
 	start := 0
 	for start < n {
-		cmd := exec.Command(node, script, opsFile, fmt.Sprint(start), index)
+		// process deadline: a call that never returns inside the single-threaded module cannot be interrupted from inside
+		ctx, cancel := context.WithTimeout(context.Background(), 60*time.Second+time.Duration(n-start)*50*time.Millisecond)
+		cmd := exec.CommandContext(ctx, node, script, opsFile, fmt.Sprint(start), index)
+		cmd.WaitDelay = 5 * time.Second
 		var out bytes.Buffer
 		cmd.Stdout = &out
 		cmd.Stderr = &out
 		err := cmd.Run()
+		timedOut := ctx.Err() != nil
+		cancel()
 		last := -1
 		sc := bufio.NewScanner(&out)
 		sc.Buffer(make([]byte, 1<<20), 1<<26)
@@ -463,12 +470,18 @@ func runNode(node, script, opsFile, index string, n int) ([]string, error) {
 				last = i
 			}
 		}
-		if last < start {
-			if err != nil {
+		if timedOut && last >= start && last+1 < n {
+			ans[last+1] = "module-hung"
+			last++
+		} else if last < start {
+			if err != nil && !timedOut {
 				return nil, fmt.Errorf("node: %v: %s", err, trunc(out.String(), 400))
 			}
 			// the process died without answering op `start`
 			ans[start] = "module-dead"
+			if timedOut {
+				ans[start] = "module-hung"
+			}
 			last = start
 		}
 		start = last + 1
@@ -682,6 +695,7 @@ func main() {
 	}
 	json.NewEncoder(os.Stdout).Encode(out)
 	if len(viol) > 0 {
+		os.RemoveAll(tmp)
 		os.Exit(1)
 	}
 }
